@@ -5,8 +5,6 @@ From Coq Require Import List NArith Bool Arith Lia.
 From VF Require Import Matcher.Model Matcher.ParserFacts Matcher.EvalFacts Matcher.PrintLex Matcher.PrintParse C18.Entry.
 Import ListNotations.
 
-Definition table_clean (t : table) : bool :=
-  forallb (fun row => forallb (fun x => negb (tv_through_scalar x)) (snd (snd row))) t.
 
 (* the hypotheses of the property on a case:
    - the model variant parses the string like the documented grammar (no bare keyword pattern),
